@@ -234,23 +234,7 @@ def run(fx, tier):
 
     # ---- R-OWN
     cg = CallGraph(fx)
-    for tgt_cls, tgt_names, allowed in (
-            ('client_service', ('allocate_pid', 'free_pid'), set(OPS)),
-            ('packet_id_allocator', ('allocate', 'free'),
-             {'client_service::allocate_pid', 'client_service::free_pid'})):
-        seen = 0
-        for caller, n, line in cg.callers_of(lambda c, n: c.cls == tgt_cls and c.n in tgt_names):
-            if not caller.path_file().startswith('boost/mqtt5/'):
-                continue
-            seen += 1
-            who = caller.cls if tgt_cls == 'client_service' else '%s::%s' % (caller.cls, caller.n)
-            v.check(who in allowed, 'R-OWN', '%s::%s calls %s::%s [%s]' % (
-                caller.cls, caller.n, tgt_cls, callee_name(n), caller.tu),
-                'caller %s %s the owner set %s' % (who, 'in' if who in allowed else 'NOT in', sorted(allowed)),
-                key='C08:R-OWN:%s::%s->%s' % (caller.cls, caller.n, callee_name(n)),
-                where='%s:%d' % (caller.path_file(), line))
-        if seen == 0:
-            raise AnalysisBroken('no caller of %s::%s found' % (tgt_cls, tgt_names))
+    pid_owner_rule(fx, v, 'C08', cg)
     # "an identifier becomes reusable only after its exchange completed": a QoS 2 exchange is over at PUBREC only when the
     # PUBREC carries an ERROR reason code (0x80 and above, reason_code::operator bool); every other PUBREC - including the
     # success-class 0x10 - keeps the identifier until PUBCOMP
@@ -348,6 +332,30 @@ def run(fx, tier):
         'release exactly once iff the exchange ends, never while it continues; the identifier that is freed, '
         'awaited and encoded is traced (def-use, through helper parameters) to allocate_pid() or to packet_id() '
         'of the carried packet. Uniqueness of what allocate() returns is NOT decided (allocator history).')
+
+
+def pid_owner_rule(fx, v, prop='C08', cg=None):
+    """who may allocate / release the client's packet identifiers (shared with C01: the acknowledgement that completes a
+    PUBLISH is matched by its identifier, which only means something while no second exchange carries the same one -
+    e.g. an identifier of the BROKER's namespace released into the client's allocator, seed C01-f)"""
+    cg = cg or CallGraph(fx)
+    for tgt_cls, tgt_names, allowed in (
+            ('client_service', ('allocate_pid', 'free_pid'), set(OPS)),
+            ('packet_id_allocator', ('allocate', 'free'),
+             {'client_service::allocate_pid', 'client_service::free_pid'})):
+        seen = 0
+        for caller, n, line in cg.callers_of(lambda c, n: c.cls == tgt_cls and c.n in tgt_names):
+            if not caller.path_file().startswith('boost/mqtt5/'):
+                continue
+            seen += 1
+            who = caller.cls if tgt_cls == 'client_service' else '%s::%s' % (caller.cls, caller.n)
+            v.check(who in allowed, 'R-OWN', '%s::%s calls %s::%s [%s]' % (
+                caller.cls, caller.n, tgt_cls, callee_name(n), caller.tu),
+                'caller %s %s the owner set %s' % (who, 'in' if who in allowed else 'NOT in', sorted(allowed)),
+                key=prop + ':R-OWN:%s::%s->%s' % (caller.cls, caller.n, callee_name(n)),
+                where='%s:%d' % (caller.path_file(), line))
+        if seen == 0:
+            raise AnalysisBroken('no caller of %s::%s found' % (tgt_cls, tgt_names))
 
 
 def origin_full(item):
